@@ -170,6 +170,7 @@ def emit_py(w, f, depth, rnd):
         last_len = len(parts[-1]) if len(parts) > 1 else len(inner + parts[0])
     tail_child = f.children_at.get(f.body)
     if tail_child is not None:
+        w.tags.add("nested-last")      # the shape itself is the tag, wherever the generator produces it
         emit_py(w, tail_child, depth + 1, rnd)
         ce = [e for e in w.expected if e["name"] == tail_child.name][-1]
         last_line, last_len = ce["end"][0], ce["end"][1] - 1
